@@ -26,8 +26,10 @@ def run(ctx):
         "threshold expression for mask and floor, reference orientation from the fourth argument.  Driver: perform_step passes the "
         "clipped/normalised solver state, params['gbs_threshold'], the snapshot stored at the start of the update (self.orientations[-1], "
         "which by C01 is unchanged during the update) and n_grains; the result is written back to y[9:] in packing order and the stored "
-        "snapshot is extract_vars of that state.  With chi = 0 and f >= 0 no select takes the floored branch (stated, follows from the "
-        "strict '<').  Not decided: the lower bound chi/(n(1+chi)) over arbitrary histories; floating-point ties at the threshold.")
+        "snapshot is extract_vars of that state.  Derived, not separately computed: the kernel identity gives S_g = max(f_g, chi/n); the wiring "
+        "rule gives sum_g f_g = 1 and f_g >= 0 for the fractions handed in; hence sum_g S_g <= sum_g f_g + n*chi/n = 1 + chi (max(a,b) <= a+b for "
+        "a,b >= 0) and every stored fraction S_g / sum S >= chi/(n(1+chi)); S is a monotone function of f, so the volume ordering is preserved; "
+        "with chi = 0 the strict '<' leaves every non-negative volume unfloored.  Not decided: floating-point ties at the threshold.")
     ctx.trusted += ["NumPy boolean-mask load/store pairing (modelled cellwise along axis 0)", "stub model of LSODA"]
     ctx.rule("C09.kernel", "apply_gbs(A, f, chi, prev, n) == reference select form (orientations and renormalised floored fractions)")
     ctx.rule("C09.wiring", "perform_step: arguments of apply_gbs and the write-back of its result into solver.y[9:]")
